@@ -87,9 +87,10 @@ def chunked_body(draw, body):
 
 
 @st.composite
-def request(draw, allow_expect=False, versions=("1.1", "1.1", "1.1", "1.0"), force_framing=None, small=False):
+def request(draw, allow_expect=False, versions=("1.1", "1.1", "1.1", "1.0"), force_framing=None, small=False,
+            targets=None, body_strategy=None):
     method = draw(st.sampled_from(METHODS))
-    target = draw(st.sampled_from(TARGETS))
+    target = draw(targets if targets is not None else st.sampled_from(TARGETS))
     version = draw(st.sampled_from(list(versions)))
     toks = [["method", method], ["sp", " "], ["target", target]]
     if version:
@@ -100,7 +101,7 @@ def request(draw, allow_expect=False, versions=("1.1", "1.1", "1.1", "1.0"), for
     framing = force_framing or draw(st.sampled_from(["none", "none", "cl", "cl", "chunked", "chunked"]))
     if version != "1.1" and framing == "chunked":
         framing = "cl"
-    body = draw(body_bytes(24 if small else 64)) if framing != "none" else ""
+    body = draw(body_strategy if body_strategy is not None else body_bytes(24 if small else 64)) if framing != "none" else ""
     fr = []
     if framing == "cl":
         num = str(len(body))
